@@ -201,6 +201,9 @@ focus(struct initparser *p)
 	case TYPESTRUCT:
 	case TYPEUNION:
 		p->sub->u.mem = p->sub->type->u.structunion.members;
+		/* only the struct behind __builtin_va_list has no members */
+		if (!p->sub->u.mem)
+			error(&tok.loc, "__builtin_va_list has no members to initialize");
 		t = p->sub->u.mem->type;
 		/* not 0 when unnamed bit-fields precede the first named member */
 		off = p->sub->u.mem->offset;
